@@ -15,6 +15,11 @@ Loop invariants use the join view of the chunk list: J ++ buf ++ unread == S (an
 last_char == J[-1:], every chunk non-empty / rlen == n + 2 - |J|, rlen >= 1).
 Lemma C03.unique: the first-split decomposition is unique (CRLF and the ElastiCache token), hence the
 results are functions of S alone. Callers reach the stream only through these readers (C01).
+
+The callers of the readers are part of the same statement ("replies are parsed the same however the stream is split"): the
+fetch path (_fetch_cmd / _extract_value, which decides WHEN to call _readvalue) is re-established here as dep:C04, the
+ElastiCache configuration reader as dep:C19. A bounded segmentation corpus through the three readers stands in when a reader
+leaves the verifier's reach.
 """
 import ast
 import z3
